@@ -1,4 +1,5 @@
-"""C12: PID controllers (plain, single neuron; the fuzzy-tuned one is modelled in C13 and checked there bit for bit).
+"""C12: PID controllers (plain, single neuron; the fuzzy-tuned one is modelled in coq/C13 - its histories run here through
+checks/C13.py controller_part, bit for bit against that model and through its oracle).
 
 Proof over R (coq/Properties_C12.v).  Tie: bit-exact binary64 execution of the same Gallina terms vs the C.
 Search oracle: the property on the C outputs - limits, finiteness, integrator clamp monotonicity, exact rational
@@ -23,7 +24,10 @@ META = {
             "rnd 0=0, rnd(-x)=-rnd x (binary64 round-to-nearest-even by Flocq) and format-valued sum/limits the positional "
             "integrator never moves further beyond a clamp (verbatim) and over every history stays within "
             "[rnd(summin-rnd(ki*E)), rnd(summax+rnd(ki*E))], i.e. overshoots by at most one rounded increment. "
-            "Tie: bit-exact binary64 run vs the C.",
+            "Tie: bit-exact binary64 run vs the C. The fuzzy-tuned controller delegates to the same step functions after its gain "
+            "update (model coq/C13/FuzzyDefs.v, gain theorems in Properties_C13.v); its run/pos/inc/zero histories are executed "
+            "here too, bit for bit against that model, with every combination of present and NULL rule tables and all operator "
+            "enumerators, and judged by the oracle (limits, finiteness, gains).",
     "note": "Trusted: Coq kernel/vm_compute with primitive floats; real-number axioms listed by Print Assumptions; the 'same "
             "term, different NumOps instance' argument; hand transcription coq/C12/PidDefs.v validated bit for bit on the "
             "generated histories only. 'State stays finite' is proved as definedness over R plus the NaN-to-outmin behaviour of "
@@ -166,7 +170,9 @@ def run(ctx):
     # second tie: the model is REGENERATED from the current sources by the translator and re-tied to the proved model
     ctx.translate_and_tie([("src/pid.c", ["a_pid_run_", "a_pid_pos_", "a_pid_inc_", "a_pid_zero"]),
                            ("src/pid_neuro.c", ["a_pid_neuro_inc_"])], "GenPid", H / "TiePid.v")
-    ctx.assumptions += ["the fuzzy-tuned controller is modelled and tied in C13 (it calls these step functions after a_pid_fuzzy_out_)",
+    ctx.assumptions += ["the fuzzy-tuned controller is modelled in coq/C13/FuzzyDefs.v (it calls these step functions after "
+                        "a_pid_fuzzy_out_); its histories run here through the same bit-exact correspondence and oracle as in C13 "
+                        "(checks/C13.py controller_part: every combination of present / NULL rule tables, 9 operator enumerators)",
                         "C built with gcc -O2 -ffp-contract=off"]
     cbin = ctx.cc("drv", [H / "drv.c"], repo_srcs=["pid.c", "pid_neuro.c", "a.c"], mode="num")
     ok, outs, failed = ctx.coq_build(["C12/PidDefs.v", "Common/FloatOps.v"])
@@ -207,6 +213,9 @@ def run(ctx):
             nrep += 1
             ctx.report("%s/history" % meta[0], why, {"case": cl, "params": meta[1], "steps": meta[2], "c_output": c_out[i]})
     ctx.count(evaluations=len(cases), nontrivial=len(set(c[0] for c in cases if len(c[2][2]) >= 2)))
+    # the fuzzy-tuned controller (third controller of the property): model and harness live with C13
+    import importlib
+    importlib.import_module("checks.C13").controller_part(ctx)
     ctx.cov["rule"] = ("histories of 1..40 steps: mixed modes, pos only, inc only, saturating sign-flipping inputs, a_pid_zero "
                        "in the middle; integer-valued (exact rational reference) and real-valued data; pos/inc pairs on the same "
                        "history with inactive limits; neuron with random and all-zero weights; distinct = distinct case lines "
